@@ -15,6 +15,7 @@ open Lean Pywbem.Proto Pywbem.Model.Eq
   {"op":"cmp","a":obj,"b":obj}  →  {"eq":b,"ne":b,"heq":b,"ga":b,"gb":b,"neq":b}
   {"op":"cmpn","objs":[obj…],"pairs":[[i,j]…]}  →  {"res":[{"eq","ne","heq","neq"}…],"good":[b…]}
   {"op":"dictops","allow":b,"ops":[{"o":"setitem","k":key,"v":obj}…]}  →  {"outs":[…],"items":[[key,obj]…],"allow":b}
+  {"op":"inplace","a":obj,"i":identity,"o":{"o":"dictSet","k":key,"v":obj}|…}  →  {"obj":obj}   (mutAt i (applyOp o) a)
   {"op":"state","a":obj}  →  {"keys":[slot…],"restored":[obj|"UNSET"…]}   (__getstate__ keys, __setstate__ of it on a new object)
   {"op":"eqtop","a":obj,"b":obj}  →  {"ok":b} | {"exc":"TypeError"}
   {"op":"copy","how":"copy"|"shallow"|"deep","a":obj,"base":n}  →  {"obj":obj,"next":n,"doc":[ids]}
@@ -119,6 +120,20 @@ def parseDOp (j : Json) : Option DOp :=
   | some "allow" => some (.setAllow ((getBool j "b").getD false))
   | _ => none
 
+def parseInOp (j : Json) : Option InOp :=
+  let k := parseKey (getField j "k")
+  let v := parseObj (getField j "v")
+  match getStr j "o" with
+  | some "listAppend" => v.map InOp.listAppend
+  | some "listPop" => some .listPop
+  | some "dictSet" => k.bind (fun k => v.map (InOp.dictSet k))
+  | some "dictDel" => k.map InOp.dictDel
+  | some "dictUpdate" => (parseItems (getArr j "items")).map InOp.dictUpdate
+  | some "setAttr" => v.map (InOp.setAttr ((getNat j "slot").getD 0))
+  | some "pathSet" => k.bind (fun k => v.map (InOp.pathSet k))
+  | some "pathDel" => k.map InOp.pathDel
+  | _ => none
+
 def doutToJson : DOut → Json
   | .none => Json.mkObj [("none", true)]
   | .val v => Json.mkObj [("val", objToJson v)]
@@ -167,6 +182,10 @@ def handle (j : Json) : Json :=
         ("items", Json.arr (s.items.map (fun e => Json.arr #[keyToJson e.1, objToJson e.2])).toArray),
         ("allow", s.allow)]
     | none => Json.mkObj [("bad", "dictop")]
+  | some "inplace" =>
+    match parseObj (getField j "a"), parseInOp (getField j "o") with
+    | some a, some op => Json.mkObj [("obj", objToJson (mutAt ((getNat j "i").getD 0) (applyOp C op) a))]
+    | _, _ => Json.mkObj [("bad", "inplace")]
   | some "state" =>
     match parseObj (getField j "a") with
     | some (.node _ k as) =>
@@ -180,9 +199,12 @@ def handle (j : Json) : Json :=
   | some "eqtop" =>
     match parseObj (getField j "a"), parseObj (getField j "b") with
     | some a, some b =>
+      let ord := match orderTop a b with
+        | .ok r => Json.mkObj [("ok", r)]
+        | .error e => e.toJson
       match eqTop C a b with
-      | .ok r => Json.mkObj [("ok", r)]
-      | .error e => e.toJson
+      | .ok r => Json.mkObj [("ok", r), ("order", ord)]
+      | .error e => (e.toJson).setObjVal! "order" ord
     | _, _ => Json.mkObj [("bad", "obj")]
   | some "copy" =>
     match parseObj (getField j "a") with
